@@ -254,10 +254,17 @@ func hashWords(s [][]byte) uint64 {
 func cliques(g graph.Graph) string {
 	ch := make(chan []int)
 	go graph.AllMaximalCliques(g, ch)
-	var all []string
+	// the consumer treats every clique it receives as its own slice: it appends to it (an apex vertex) and sorts it
+	// in place while the producer is still running, keeps all of them and reads them only at the end
+	apex := g.N()
+	var kept [][]int
 	for cl := range ch {
-		x := append([]int{}, cl...)
-		sort.Ints(x)
+		mine := append(cl, apex)
+		sort.Ints(mine)
+		kept = append(kept, mine)
+	}
+	var all []string
+	for _, x := range kept {
 		all = append(all, fp(x))
 	}
 	sort.Strings(all)
